@@ -13,6 +13,7 @@ import (
 )
 
 type Clause struct {
+	Local bool // proved at exit but not assumed at call sites ("guarantee")
 	Label string
 	Src   string
 	Expr  ast.Expr
@@ -26,6 +27,7 @@ type LoopSpec struct {
 	Decreases  *Clause
 	GhostUpd   []*Clause
 	GhostInit  []*Clause
+	Uses       []*Clause
 }
 
 type GhostDecl struct {
@@ -52,6 +54,8 @@ type FuncSpec struct {
 	Ghosts    []string
 	GhostFns  []*GhostDecl
 	GhostFinal []*Clause
+	Uses      []*Clause
+	Reveal    []string
 	Iface     string // for interface method contracts: interface name
 	File      string
 	Line      int
@@ -71,6 +75,7 @@ type SpecFunc struct {
 	BodySrc string
 	Pkg     string
 	Macro   bool // expanded in place (may read the heap of the calling scope)
+	Opaque  bool // declared uninterpreted with a triggered definitional axiom (usable as a trigger)
 }
 
 type Axiom struct {
@@ -89,7 +94,7 @@ type Contracts struct {
 }
 
 var clauseKW = map[string]bool{"prop": true, "requires": true, "ensures": true, "assigns": true, "loop": true,
-	"decreases": true, "ghost": true, "ghost_final": true, "panics_if": true, "trusted": true, "noinline": true, "pure": true, "allocates": true}
+	"decreases": true, "ghost": true, "ghost_final": true, "use": true, "reveal": true, "guarantee": true, "panics_if": true, "trusted": true, "noinline": true, "pure": true, "allocates": true}
 
 var headRe = regexp.MustCompile(`^func\s*(\(\s*(\w+)\s+(\*?\w+)\s*\))?\s*([\w$.]+)\s*\((.*?)\)\s*(\(.*\)|[\w.*\[\]]+)?\s*$`)
 
@@ -185,6 +190,16 @@ func loadContracts(files []string, pkgNames []string) (*Contracts, error) {
 				cs.SpecOrder = append(cs.SpecOrder, sf.Name)
 				cur, lastClause, lastAxiom = nil, nil, nil
 				lastSpec = sf
+			case word == "spec" && strings.HasPrefix(rest, "opaque"):
+				sf, err := parseSpecFunc("func"+strings.TrimPrefix(rest, "opaque"), pkg)
+				if err != nil {
+					return nil, fmt.Errorf("%s:%d: %v", file, ln+1, err)
+				}
+				sf.Opaque = true
+				cs.SpecFuncs[sf.Name] = sf
+				cs.SpecOrder = append(cs.SpecOrder, sf.Name)
+				cur, lastClause, lastAxiom = nil, nil, nil
+				lastSpec = sf
 			case word == "spec":
 				// spec func name(params) ret = expr   |  spec func name(params) ret uninterpreted
 				sf, err := parseSpecFunc(rest, pkg)
@@ -209,14 +224,17 @@ func loadContracts(files []string, pkgNames []string) (*Contracts, error) {
 				switch word {
 				case "prop":
 					cur.Props = append(cur.Props, strings.Fields(rest)...)
-				case "requires", "ensures", "panics_if", "decreases":
+				case "requires", "ensures", "panics_if", "decreases", "guarantee":
 					cl := &Clause{Src: rest, Line: ln + 1, File: file}
-					if m := regexp.MustCompile(`^(\w+):\s+(.*)$`).FindStringSubmatch(rest); m != nil && word == "ensures" {
+					if m := regexp.MustCompile(`^(\w+):\s+(.*)$`).FindStringSubmatch(rest); m != nil && (word == "ensures" || word == "guarantee") {
 						cl.Label, cl.Src = m[1], m[2]
 					}
 					switch word {
 					case "requires":
 						cur.Requires = append(cur.Requires, cl)
+					case "guarantee":
+						cl.Local = true
+						cur.Ensures = append(cur.Ensures, cl)
 					case "ensures":
 						cur.Ensures = append(cur.Ensures, cl)
 					case "panics_if":
@@ -235,6 +253,12 @@ func loadContracts(files []string, pkgNames []string) (*Contracts, error) {
 						cl.Props = append(cl.Props, strings.TrimSpace(pn))
 					}
 					cur.GhostFinal = append(cur.GhostFinal, cl)
+					lastClause = cl
+				case "reveal":
+					cur.Reveal = append(cur.Reveal, strings.Fields(rest)...)
+				case "use":
+					cl := &Clause{Src: rest, Line: ln + 1, File: file}
+					cur.Uses = append(cur.Uses, cl)
 					lastClause = cl
 				case "assigns":
 					cur.Assigns = rest
@@ -270,6 +294,8 @@ func loadContracts(files []string, pkgNames []string) (*Contracts, error) {
 						ls.Invariants = append(ls.Invariants, cl)
 					case "decreases":
 						ls.Decreases = cl
+					case "use":
+						ls.Uses = append(ls.Uses, cl)
 					case "ghost_update", "ghost_init":
 						gm := regexp.MustCompile(`^(\w+)\s*\(([\w\s,]*)\)\s*:=\s*(.*)$`).FindStringSubmatch(m[3])
 						if gm == nil {
@@ -312,6 +338,7 @@ func loadContracts(files []string, pkgNames []string) (*Contracts, error) {
 		all = append(all, fs.Ensures...)
 		all = append(all, fs.PanicsIf...)
 		all = append(all, fs.GhostFinal...)
+		all = append(all, fs.Uses...)
 		if fs.Decreases != nil {
 			all = append(all, fs.Decreases)
 		}
@@ -319,6 +346,7 @@ func loadContracts(files []string, pkgNames []string) (*Contracts, error) {
 			all = append(all, l.Invariants...)
 			all = append(all, l.GhostUpd...)
 			all = append(all, l.GhostInit...)
+			all = append(all, l.Uses...)
 			if l.Decreases != nil {
 				all = append(all, l.Decreases)
 			}
